@@ -16,7 +16,7 @@ META = {
     "shards": {"quick": 16, "thorough": 8},
     "exhaustive_within_bound": True,
     "bounds": {
-        "quick": "2-name universes {a,b}, {bb.i,bb.o}, {a,bb.o}, {bb.i,zz.p} (self-loops give fan-in/fan-out counts 0,1,2 = every threshold the rules use); registry in {none, bb(i;o)}; type in 14 supported + unsupported + missing; 4 flag combinations (default; all rules on; fail_fast off with unloaded only; fail_fast off with undriven+single_input_gates)",
+        "quick": "2-name universes {a,b}, {bb.i,bb.o}, {a,bb.o}, {bb.i,zz.p} (self-loops give fan-in/fan-out counts 0,1,2 = every threshold the rules use); registry in {none, bb(i;o)}; type in 14 supported + unsupported + missing; 5 flag combinations forming a pairwise covering array (every pair of flags in all four value combinations; first = defaults)",
         "thorough": "all 16 flag combinations on the 2-name universes + 3-name universe {a,b,c} with types restricted to {input, buf, and, bb_output, 0, unsupported}",
     },
     "outside": ["graphs with more names (every rule needs at most a focus node, two predecessors or two successors)", "second sentence of the property (library outputs are lint-clean) is a concrete side assertion made by every E1 harness on every circuit the library returns; C20's evidence aggregates the count from the other evidence files"],
@@ -25,7 +25,8 @@ META = {
 }
 
 UNIVERSES = {"plain": ["a", "b"], "pins": ["bb.i", "bb.o"], "mixed_o": ["a", "bb.o"], "mixed_i": ["bb.i", "zz.p"]}
-FLAGS_QUICK = [(True, False, True, False), (True, True, True, True), (False, True, False, False), (False, False, True, True)]
+# pairwise covering array over the four flags (every pair of flags takes all four value combinations); first row = defaults
+FLAGS_QUICK = [(True, False, True, False), (True, True, False, True), (False, False, False, True), (False, True, True, True), (False, True, False, False)]
 
 
 def all_cases(ctx):
